@@ -278,6 +278,7 @@ fn depth_stats(lo: u32, hi: u32, s0: u32, e0: u32, s1: u32, e1: u32) -> (u64, u6
 // @kind stretch
 // @timeout 5400
 // @mem 40
+// @rss 28
 // @functions bigbedwrite::process_val_zoom (coverage sweep + tiling into zoom records), two consecutive calls from the empty per-chromosome state, one zoom level
 // @bounds 2 entries with coordinates in 0..=7, start-sorted, any overlap relation; a third entry to the right (start 9) keeps the chromosome open; resolution 3; items_per_slot 8 (no mid-way flush)
 // @stubs tokio Handle::spawn -> counted/discarded; mpsc Sender -> always-ready log; Vec::push -> push within capacity (asserted); index_list::IndexList -> 4-slot sequence model by one source substitution of the `use` line; mpsc Sender::poll_ready/start_send -> always-ready log. (The await points inside the sweep loops make the coroutine lowering merge the nested loop heads, so the single unwinding bound of 24 is a budget for the TOTAL number of sweep/tiling iterations of one call; removing the awaits by substitution un-merges the loops and the nested unwinding ran out of memory)
@@ -483,6 +484,7 @@ fn depth2_stats(lo: u32, hi: u32, a0: u32, a1: u32, a2: u32, d1: u64, d2: u64, n
 // @kind core
 // @timeout 3600
 // @mem 40
+// @rss 24
 // @functions bigbedwrite::process_val_zoom (coverage sweep + tiling into zoom records): ONE call from an ARBITRARY valid per-level state
 // @bounds (number of tracked pieces symbolic) pre-state: tracked coverage = 0..=2 contiguous pieces starting at the entry's start with strictly decreasing positive depths (what the sweep leaves behind), live zoom record absent or any record satisfying the invariant (ends at or before the entry's start, shorter than the resolution, 1..=len covered bases, depth statistics 1..=3); entry [is,ie) with is <= 4, all coordinates <= 7; the next entry starts at 12 (everything is swept); resolution 3; items_per_slot 8
 // @assumes representation invariant as stated; depths <= 3
@@ -504,6 +506,7 @@ fn c08_bigbed_zoom_step() {
 // @kind core
 // @timeout 3600
 // @mem 24
+// @rss 12
 // @functions bigbedwrite::process_val_zoom (coverage sweep + tiling into zoom records): ONE call from an ARBITRARY valid per-level state
 // @bounds INSTANCE with 0 tracked pieces; pre-state: tracked coverage = 0..=2 contiguous pieces starting at the entry's start with strictly decreasing positive depths (what the sweep leaves behind), live zoom record absent or any record satisfying the invariant (ends at or before the entry's start, shorter than the resolution, 1..=len covered bases, depth statistics 1..=3); entry [is,ie) with is <= 4, all coordinates <= 7; the next entry starts at 12 (everything is swept); resolution 3; items_per_slot 8
 // @assumes representation invariant as stated; depths <= 3
@@ -521,10 +524,11 @@ fn c08_bigbed_zoom_step_np0() {
 
 // @harness c08_bigbed_zoom_step_np1
 // @props C08
-// @tier quick
+// @tier thorough
 // @kind core
 // @timeout 3600
 // @mem 24
+// @rss 12
 // @functions bigbedwrite::process_val_zoom (coverage sweep + tiling into zoom records): ONE call from an ARBITRARY valid per-level state
 // @bounds INSTANCE with exactly 1 tracked piece; pre-state: tracked coverage = 0..=2 contiguous pieces starting at the entry's start with strictly decreasing positive depths (what the sweep leaves behind), live zoom record absent or any record satisfying the invariant (ends at or before the entry's start, shorter than the resolution, 1..=len covered bases, depth statistics 1..=3); entry [is,ie) with is <= 4, all coordinates <= 7; the next entry starts at 12 (everything is swept); resolution 3; items_per_slot 8
 // @assumes representation invariant as stated; depths <= 3
@@ -542,10 +546,11 @@ fn c08_bigbed_zoom_step_np1() {
 
 // @harness c08_bigbed_zoom_step_np2
 // @props C08
-// @tier quick
+// @tier thorough
 // @kind core
 // @timeout 3600
 // @mem 24
+// @rss 12
 // @functions bigbedwrite::process_val_zoom (coverage sweep + tiling into zoom records): ONE call from an ARBITRARY valid per-level state
 // @bounds INSTANCE with exactly 2 tracked pieces; pre-state: tracked coverage = 0..=2 contiguous pieces starting at the entry's start with strictly decreasing positive depths (what the sweep leaves behind), live zoom record absent or any record satisfying the invariant (ends at or before the entry's start, shorter than the resolution, 1..=len covered bases, depth statistics 1..=3); entry [is,ie) with is <= 4, all coordinates <= 7; the next entry starts at 12 (everything is swept); resolution 3; items_per_slot 8
 // @assumes representation invariant as stated; depths <= 3
@@ -567,7 +572,8 @@ fn zoom_step(np_fixed: Option<u8>) {
     kani::assume(is <= ie && is <= 4 && ie <= 7);
     // tracked pieces
     // number of tracked pieces: symbolic in the thorough harness, one concrete value per quick instance (the
-    // case split cuts the solver time from 37 min to a few minutes per instance)
+    // case split cuts the run from 40 min to 9-13 min per instance; still above the 15-minute budget of a quick check, so all
+    // of them live in the thorough tier)
     let np: u8 = match np_fixed { Some(v) => v, None => kani::any() };
     kani::assume(np <= 2);
     let (a1, a2): (u32, u32) = (kani::any(), kani::any());
